@@ -357,7 +357,7 @@ class DFree(WeightingModel):
     """
 
     def supports_block_quality(self):
-        return True
+        return False
 
     def scorer(self, searcher, fieldname, text, qf=1):
         if not searcher.schema[fieldname].scorable:
@@ -376,6 +376,12 @@ class DFreeScorer(WeightLengthScorer):
 
         self.qf = qf
         self.setup(searcher, fieldname, text)
+
+    def supports_block_quality(self):
+        # DFree is not monotonic in the field length (for short fields a
+        # longer field scores higher), so the score of (max weight, min
+        # length) is not an upper bound for a block
+        return False
 
     def _score(self, weight, length):
         return dfree(weight, self.cf, self.qf, length, self.fl)
